@@ -5,9 +5,10 @@ import AriadneModel.Driver.Wire
 import AriadneModel.Driver.GqlWire
 import AriadneModel.Model.OpText
 import AriadneModel.Model.Embed
+import AriadneModel.Spec.GqlLex
 
 open Lean (Json)
-open Ariadne Ariadne.Gql Ariadne.ResultTypes Ariadne.OpText Ariadne.Embed Ariadne.PyStr
+open Ariadne Ariadne.Gql Ariadne.ResultTypes Ariadne.OpText Ariadne.Embed Ariadne.PyStr Ariadne.GqlLex
 
 namespace C02Driver
 
@@ -110,12 +111,24 @@ def pystrLine (j : Json) : Except String Json := do
   | "trigger" => pure (match trigger t with | some tr => Json.str tr.name | none => Json.null)
   | _ => throw s!"unknown pystr fn {fn}"
 
+def encTok : Tok → Json
+  | .punct s => Json.arr #["punct", encText s]
+  | .name s => Json.arr #["name", encText s]
+  | .num s => Json.arr #["num", encText s]
+  | .str s => Json.arr #["str", encText s]
+  | .err => Json.arr #["err", encText []]
+
+def lexLine' (j : Json) : Except String Json := do
+  let q ← decText j "text"
+  pure (Json.arr ((lexText q).map encTok).toArray)
+
 def handle (j : Json) : Except String Json := do
   let op ← Wire.fieldStr j "op"
   match op with
   | "sentDoc" => sentDocLine j
   | "embed" => embedLine j
   | "pystr" => pystrLine j
+  | "lex" => lexLine' j
   | _ => throw s!"unknown op {op}"
 
 end C02Driver
